@@ -91,3 +91,36 @@ Example C14_example :
   | Err _ => False
   end.
 Proof. vm_compute. split; reflexivity. Qed.
+
+(* ------------------------------------------------------------------------------------------------------
+   Added in build session 4 (statements re-stated from the proof files by harness tooling; each is closed by
+   exact). *)
+From SplipyModel Require Import Transfer.ParamObj Transfer.ParamOps Transfer.ParamOps2.
+Open Scope R_scope.
+Theorem C14_executed_is_proved_interpolate :
+  forall (tol : Q) (b : basis Q) (ts : list Q) (x : list (list Q)),
+         resmap objQ2R (curve_interpolate tol b ts x) =
+         curve_interpolate (Q2R tol) (basisQ2R b) (map Q2R ts) (map (map Q2R) x).
+Proof. exact @curve_interpolate_transfer. Qed.
+Print Assumptions C14_executed_is_proved_interpolate.
+
+Theorem C14_executed_is_proved_lsq :
+  forall (tol : Q) (b : basis Q) (ts : list Q) (x : list (list Q)),
+         resmap objQ2R (curve_lsq tol b ts x) = curve_lsq (Q2R tol) (basisQ2R b) (map Q2R ts) (map (map Q2R) x).
+Proof. exact @curve_lsq_transfer. Qed.
+Print Assumptions C14_executed_is_proved_lsq.
+
+Theorem C14_executed_is_proved_cubic_curve :
+  forall (tol : Q) (bt : nat) (t : list Q) (x tang : list (list Q)),
+         resmap objQ2R (cubic_curve tol bt t x tang) =
+         cubic_curve (Q2R tol) bt (map Q2R t) (map (map Q2R) x) (map (map Q2R) tang).
+Proof. exact @cubic_curve_transfer. Qed.
+Print Assumptions C14_executed_is_proved_cubic_curve.
+
+Theorem C14_executed_is_proved_surface_interpolate :
+  forall (tol : Q) (bu bv : basis Q) (us vs : list Q) (x : list (list Q)),
+         resmap objQ2R (surface_interpolate tol bu bv us vs x) =
+         surface_interpolate (Q2R tol) (basisQ2R bu) (basisQ2R bv) (map Q2R us) (map Q2R vs) (map (map Q2R) x).
+Proof. exact @surface_interpolate_transfer. Qed.
+Print Assumptions C14_executed_is_proved_surface_interpolate.
+
